@@ -250,6 +250,10 @@ func expectedSeries(s progs.Snap, p string) []string {
 					}
 				}
 				sort.Strings(ls)
+				if lv.Ty == "hist" {
+					out = append(out, fmt.Sprintf("%s{%s} hist:%d:%v", strings.ReplaceAll(nm.Name, "-", "_"), strings.Join(ls, ","), lv.I, float64(lv.Sum)))
+					continue
+				}
 				v := float64(lv.I)
 				if lv.Ty == "float" {
 					v = math.Float64frombits(lv.Bits)
